@@ -1,0 +1,8 @@
+//go:build verif
+
+package commands
+
+// VerifParseDumpParams exposes the unexported -dump parameter parser to the verification harness.
+func VerifParseDumpParams(param string) (uint16, uint16, error) {
+	return parseDumpParams(param)
+}
